@@ -9,8 +9,6 @@ entry with the key; none of them reaches a panic site or runs out of fuel on wel
 namespace Nomt.BtLookup
 open Nomt Nomt.Store
 
-abbrev Asc (l : List (Nat × Nat)) : Prop := l.Pairwise (fun a b => a.1 < b.1)
-
 /-- the number of leading separators below `key` (on an ascending list: the partition point) -/
 def pp : List (Nat × Nat) → Nat → Nat
   | [], _ => 0
